@@ -53,6 +53,11 @@ type Env struct {
 	NSMap map[string]string
 	// NavHasURI => navigator exposes NamespaceURL().
 	NavHasURI bool
+	// Fragment restrictions: outside the stated domain the reference gives
+	// "undefined" and the case is skipped (never reported).
+	SumNumericOnly bool // sum() over a node whose string-value is not a number
+	ModDomainOnly  bool // mod unless both operands are non-negative integers and the divisor is non-zero
+	StringNumSmall bool // string(number) unless finite and |v| < 1e6
 }
 
 type ctx struct {
@@ -555,6 +560,9 @@ func (c *ctx) evalBin(b *gen.Bin) Value {
 	case "div":
 		return numV(x / y)
 	case "mod":
+		if c.env.ModDomainOnly && !(x >= 0 && y > 0 && x == math.Trunc(x) && y == math.Trunc(y) && !math.IsInf(x, 0) && !math.IsInf(y, 0)) {
+			return undef()
+		}
 		return numV(math.Mod(x, y)) // truncating remainder, sign of dividend
 	}
 	panic("ref: bad operator " + b.Op)
@@ -676,7 +684,11 @@ func (c *ctx) evalCall(f *gen.Call) Value {
 		}
 		s := 0.0
 		for _, n := range v.NS {
-			s += StrToNum(t.StringValue(n))
+			x := StrToNum(t.StringValue(n))
+			if c.env.SumNumericOnly && math.IsNaN(x) {
+				return undef()
+			}
+			s += x
 		}
 		return numV(s)
 	case "not":
@@ -691,6 +703,9 @@ func (c *ctx) evalCall(f *gen.Call) Value {
 	case "string":
 		if len(args) == 0 {
 			return strV(t.StringValue(c.node))
+		}
+		if v := ev(0); c.env.StringNumSmall && v.T == TNum && (math.IsNaN(v.N) || math.IsInf(v.N, 0) || math.Abs(v.N) >= 1e6) {
+			return undef()
 		}
 		return strV(c.toStr(ev(0)))
 	case "floor":
